@@ -269,6 +269,13 @@ def split_cases(tier):
                     sl = 1 + (N + L) % 3
                     cases.append({"N": N, "L": L, "suffix": sl, "target": target, "closed_by": closed_by,
                                   "relative": (N + L) % 4 == 0})
+    # more parts than the suffix length has digits for (10**suffix-length and beyond): names grow, nothing wraps
+    for L, sl, Ns in ((1, 1, (9, 10, 11, 12, 25)), (2, 1, (19, 20, 21, 23)), (3, 1, (31,)), (1, 2, (99, 100, 101, 102)),
+                      (2, 2, (201, 203))):
+        for N in Ns:
+            for target in ("plain", "jsonfile") if N < 150 else ("plain",):
+                cases.append({"N": N, "L": L, "suffix": sl, "target": target, "closed_by": "with", "relative": False,
+                              "many-parts": True})
     return cases
 
 
@@ -277,6 +284,8 @@ def check_split(case, ctx):
 
     N, L, sl, target, closed_by = case["N"], case["L"], case["suffix"], case["target"], case["closed_by"]
     ctx.cls("target:" + target, "closed-by:" + closed_by)
+    if case.get("many-parts"):
+        ctx.cls("split:parts>=10**suffix-length" if -(-N // L) >= 10 ** sl else "split:parts-just-below-10**suffix-length")
     if N % L == 0 or N > L:
         ctx.nontriv()
     tmp = ctx.fresh_dir()
@@ -476,9 +485,74 @@ def check_rotation(case, ctx):
         shutil.rmtree(tmp, ignore_errors=True)
 
 
+LARGE_SIZES = [2**20 + 3, 2**24 - 64, 2**24 + 1, 2**25 + 5]
+LARGE_TARGETS = ["stream", "stream.gz", "stream.zst", "split", "jsonfile", "avro", "sqlite"]
+
+
+def large_cases(tier):
+    return [{"size": n, "target": t, "field": f} for n in LARGE_SIZES for t in LARGE_TARGETS for f in ("bytes", "string")
+            if not (t in ("jsonfile", "avro", "sqlite") and n > 2**24 + 1 and tier != "thorough")]
+
+
+def check_large_record(case, ctx):
+    """'Every record written is on disk and readable' has no size clause: one record of many megabytes between small
+    ones, written through a closed writer, reads back together with its neighbours."""
+    from flow.record import RecordDescriptor, RecordReader, RecordWriter
+
+    n, target, field = case["size"], case["target"], case["field"]
+    ctx.cls("record-bytes:%d" % n, "target:" + target, "field:" + field)
+    ctx.nontriv()
+    desc = RecordDescriptor("c17/large", [(field, "blob"), ("varint", "n")])
+    big = (b"0123456789abcdef" * (n // 16 + 1))[:n]
+    if field == "string":
+        big = big.decode()
+    small = b"small" if field == "bytes" else "small"
+    recs = [desc(small, 0, _generated=GEN), desc(big, 1, _generated=GEN), desc(small, 2, _generated=GEN),
+            desc(small, 3, _generated=GEN)]
+    tmp = ctx.fresh_dir()
+    try:
+        if target == "split":
+            uri = "split://" + os.path.join(tmp, "out.records") + "?count=3"
+            readers = [os.path.join(tmp, "out.00.records"), os.path.join(tmp, "out.01.records")]
+        else:
+            uri = url_for(target, tmp)
+            readers = [uri]
+
+        def run():
+            with RecordWriter(uri) as w:
+                for r in recs:
+                    w.write(r)
+
+        res = impl(run)
+        if not res.ok:
+            raise Violation("large/%s/write-raised" % target, "%d-byte %s value: %r" % (n, field, res), detail=res.type)
+
+        def rd():
+            out = []
+            for u in readers:
+                r = RecordReader(u)
+                try:
+                    out.extend((int(x.n), len(x.blob), hash(x.blob)) for x in r)
+                finally:
+                    r.close()
+            return out
+
+        got = impl(rd)
+        want = [(int(x.n), len(x.blob), hash(x.blob)) for x in recs]
+        if not got.ok:
+            raise Violation("large/%s/read-raised" % target, "%d-byte %s value: reading back raised %r" % (n, field, got),
+                            detail=got.type)
+        if got.value != want:
+            raise Violation("large/%s/records-differ" % target, "%d-byte %s value: wrote (n, len) %r, read %r"
+                            % (n, field, [w_[:2] for w_ in want], [g[:2] for g in got.value]))
+    finally:
+        shutil.rmtree(tmp, ignore_errors=True)
+
+
 def parts(tier):
     return [
         Part("histories", check_history, cases=history_cases, exhaustive=True),
         Part("split-grid", check_split, cases=split_cases, exhaustive=True),
+        Part("large-records", check_large_record, cases=large_cases, exhaustive=True),
         Part("rotation", check_rotation, strategy=rotation_case(), examples=(150, 8000)),
     ]
